@@ -462,7 +462,8 @@ def replay_duplicate_outputs():
                 pass
         lines = open(out).read().splitlines() if os.path.exists(out) else []
         n_out = len(lines[0].split(',')) - 1 if lines else 0
-        rows = [ln for ln in lines[1:] if '(' in ln]
+        import re
+        rows = [ln for ln in lines[1:] if re.search(r'\([^()]*:[^()]*;\)\s*$', ln)]      # the iteration rows end with '(Input:value;...)'
         bad = [ln for ln in rows if len([f for f in ln.partition('(')[0].strip().strip(',').split(',') if f.strip()]) != n_out]
         _REPLAY['dupout'] = (bool(bad) or not rows, {'header': lines[0] if lines else None, 'rows not matching the header': bad[:3], 'rows': len(rows)})
     finally:
